@@ -1,7 +1,7 @@
 ------------------------------ MODULE Report -------------------------------
 (***************************************************************************)
 (* What the verbose callback modes report after every iteration of a      *)
-(* serial run (growth beyond the listed properties; supports C20).  Code:  *)
+(* run - serial, or rank 0 of an MPI run (growth; supports C20).  Code:    *)
 (* callback.hpp `callback::operator()`:                                    *)
 (*   iteration <k> finished.                                               *)
 (*   this iteration: N=<n> E=<e> +- <s> (<p>%) eff=<f>% nnf=<q>            *)
@@ -25,7 +25,7 @@ PrefixSum(s, i) == LET F[k \in 0 .. i] == IF k = 0 THEN 0 ELSE F[k - 1] + s[k] I
 \* the efficiency as printed with six significant digits, recorded in units of 1/1000 percent (-1: not a number)
 EffOK(p, nz, n) == IF n = 0 THEN p = -1 ELSE Near(p, 1000, <<100 * nz, n>>, 1)
 
-\* e: a Lane event of a verbose mode of a serial run; m iterations were reported
+\* e: a Lane event of a verbose mode; m iterations were reported (by the process itself or by rank 0 of the communicator)
 ReportOK(e) ==
     LET m == Len(e.texts) IN
     /\ \A f \in {"pIters", "pN", "pNnf", "pEff", "pE", "pErr", "pAllN", "pAllE", "pAllErr", "pChi",
